@@ -40,6 +40,14 @@ impl C07 {
     if w1 != ew || w2 != ew {
       out.fail(env, viol(sub, "weekday", case, &k, c.fmt(i), ew.to_string(), format!("SolarDay {} JulianDay {}", w1, w2)));
     }
+    // a Julian date carrying a time of day belongs to the civil day that contains it
+    for f in [0.25f64, 0.5, 0.75, 0.999] {
+      let w = JulianDay::from_julian_day(jdn as f64 - 0.5 + f).get_week().get_index() as i64;
+      if w != ew {
+        out.fail(env, viol(sub, "weekday_of_julian_date_with_time", case, &k, format!("{} + {} day", c.fmt(i), f), ew.to_string(), w.to_string()));
+        break;
+      }
+    }
     let r = guard(|| {
       let l = s.get_lunar_day();
       (l.get_sixty_cycle().get_index() as i64, l.get_week().get_index() as i64, l.get_day() as i64, l.get_lunar_month().get_day_count() as i64)
@@ -63,6 +71,20 @@ impl C07 {
     }
     if lw != ew {
       out.fail(env, viol(sub, "weekday_lunar_route", case, &k, c.fmt(i), ew.to_string(), lw.to_string()));
+    }
+    if with_scd || i % 16 == 0 {
+      // route through a late-Zi hour: after hour-level queries on the LunarHour, its day must still report this day's pillar
+      let hr = guard(|| {
+        let h = tyme4rs::tyme::solar::SolarTime::from_ymd_hms(y as isize, m as usize, d as usize, 23, 30, 0).get_lunar_hour();
+        let _ = (h.get_sixty_cycle_hour(), h.get_twelve_star());
+        let ld = h.get_lunar_day();
+        (ld.get_sixty_cycle().get_index() as i64, ld.get_sixty_cycle_day().get_sixty_cycle().get_index() as i64)
+      });
+      if let Ok((a, b)) = hr {
+        if a != ep || b != ep {
+          out.fail(env, viol(sub, "pillar_via_late_zi_hour", case, &k, format!("{} 23:30 -> lunar hour -> its lunar day", c.fmt(i)), pillar_name(ep), format!("lunar-date route {} sexagenary-day route {}", pillar_name(a), pillar_name(b))));
+        }
+      }
     }
     if with_scd {
       out.class("sexagenary_day_route");
@@ -181,9 +203,12 @@ impl Prop for C07 {
     match t {
       "dates" => {
         let (lo, hi) = shard_range(NDAYS, shard, nshards);
+        let mut rev = Reverse::new(40);
         for i in lo..hi {
           run_case(env, out, "date", &Case::ints(&[i as i64, 0]), &ev);
+          rev.note("date", &Case::ints(&[i as i64, 0]));
         }
+        rev.run(env, out, &ev);
         out.set_exhaustive("date", true);
       }
       "scd" => {
